@@ -64,6 +64,35 @@ fn alloc_read() -> (u64, u64) {
     (ALLOCATED.with(|a| a.get()), PEAK_REQ.with(|a| a.get()))
 }
 
+thread_local! {
+    /// framed mode: decode from a cursor positioned after FRAME junk bytes in front of the string, no end-of-input check
+    static FRAMED: Cell<bool> = const { Cell::new(false) };
+    static CONSUMED: Cell<usize> = const { Cell::new(0) };
+}
+const FRAME: usize = 3;
+/// Every decoder call of this module goes through here: the whole-message form, or (framed mode) the cursor form.
+fn gd<T: ParameterizedDecode<P>, P>(param: &P, bytes: &[u8]) -> Result<T, prio::codec::CodecError> {
+    if FRAMED.with(|f| f.get()) {
+        let mut buf = vec![0xaa, 0xbb, 0xcc];
+        buf.extend_from_slice(bytes);
+        let mut c = Cursor::new(&buf[..]);
+        c.set_position(FRAME as u64);
+        let r = T::decode_with_param(param, &mut c);
+        CONSUMED.with(|x| x.set((c.position() as usize).saturating_sub(FRAME)));
+        r
+    } else {
+        T::get_decoded_with_param(param, bytes)
+    }
+}
+/// The decoder of `d` run on a cursor inside a larger buffer: (outcome, bytes consumed).
+pub fn decode_framed(d: &Value, bytes: &[u8]) -> (Outcome, usize) {
+    FRAMED.with(|f| f.set(true));
+    CONSUMED.with(|x| x.set(0));
+    let o = decode(d, bytes);
+    FRAMED.with(|f| f.set(false));
+    (o, CONSUMED.with(|x| x.get()))
+}
+
 /// What the real decoder did with a byte string.
 pub struct Outcome {
     pub ok: bool,
@@ -111,13 +140,19 @@ impl<T: Encode> Encode for Items<T> {
 }
 fn items<T: Decode + Encode>(w: u64, bytes: &[u8]) -> Outcome {
     run!({
-        let mut c = Cursor::new(bytes);
+        let framed = FRAMED.with(|f| f.get());
+        let mut buf = if framed { vec![0xaa, 0xbb, 0xcc] } else { vec![] };
+        buf.extend_from_slice(bytes);
+        let mut c = Cursor::new(&buf[..]);
+        c.set_position(if framed { FRAME as u64 } else { 0 });
         let v: Vec<T> = match w {
             1 => decode_u8_items(&(), &mut c),
             2 => decode_u16_items(&(), &mut c),
             _ => decode_u32_items(&(), &mut c),
         }?;
-        if c.position() as usize != bytes.len() {
+        if framed {
+            CONSUMED.with(|x| x.set(c.position() as usize - FRAME));
+        } else if c.position() as usize != bytes.len() {
             return Err(prio::codec::CodecError::BytesLeftOver(bytes.len() - c.position() as usize));
         }
         Ok(Items(v, w as u8))
@@ -136,14 +171,14 @@ where
     let state_bytes = vec![0u8; if j == 0 { d["ol"].as_u64().unwrap() as usize * F::ENCODED_SIZE } else { 32 } + if d["jr"].as_bool().unwrap() { 32 } else { 0 }];
     let state = || Prio3VerifyState::get_decoded_with_param(&(&v, j), &state_bytes).expect("zero state decodes");
     match d["ty"].as_str().unwrap() {
-        "prio3_pub" => run!(Prio3PublicShare::get_decoded_with_param(&v, bytes)),
-        "prio3_share" => run!(Prio3InputShare::get_decoded_with_param(&(&v, j), bytes)),
-        "prio3_vshare" => { let st = state(); run!(Prio3VerifierShare::get_decoded_with_param(&st, bytes)) }
-        "prio3_msg" => { let st = state(); run!(Prio3VerifierMessage::get_decoded_with_param(&st, bytes)) }
-        "prio3_state" => run!(Prio3VerifyState::get_decoded_with_param(&(&v, j), bytes)),
-        "prio3_out" => run!(OutputShare::<F>::get_decoded_with_param(&(&v, &()), bytes)),
-        "prio3_agg" => run!(AggregateShare::<F>::get_decoded_with_param(&(&v, &()), bytes)),
-        "prio3_cont" => run!(PingPongContinuation::<32, 16, Prio3<T, XofTurboShake128, 32>>::get_decoded_with_param(&(&v, j), bytes)),
+        "prio3_pub" => run!(gd::<Prio3PublicShare<32>, _>(&v, bytes)),
+        "prio3_share" => run!(gd::<Prio3InputShare<F, 32>, _>(&(&v, j), bytes)),
+        "prio3_vshare" => { let st = state(); run!(gd::<Prio3VerifierShare<F, 32>, _>(&st, bytes)) }
+        "prio3_msg" => { let st = state(); run!(gd::<Prio3VerifierMessage<32>, _>(&st, bytes)) }
+        "prio3_state" => run!(gd::<Prio3VerifyState<F, 32>, _>(&(&v, j), bytes)),
+        "prio3_out" => run!(gd::<OutputShare::<F>, _>(&(&v, &()), bytes)),
+        "prio3_agg" => run!(gd::<AggregateShare::<F>, _>(&(&v, &()), bytes)),
+        "prio3_cont" => run!(gd::<PingPongContinuation::<32, 16, Prio3<T, XofTurboShake128, 32>>, _>(&(&v, j), bytes)),
         t => panic!("type {t}"),
     }
 }
@@ -180,20 +215,20 @@ fn poplar_state(leaf: bool, round: u64, j: usize, v: &Poplar1<XofTurboShake128, 
 pub fn decode(d: &Value, bytes: &[u8]) -> Outcome {
     let ty = d["ty"].as_str().unwrap();
     match ty {
-        "u8" => run!(u8::get_decoded(bytes)),
-        "u16" => run!(u16::get_decoded(bytes)),
-        "u32" => run!(u32::get_decoded(bytes)),
-        "u64" => run!(u64::get_decoded(bytes)),
-        "seed" => if d["n"] == 16 { run!(Seed::<16>::get_decoded(bytes)) } else { run!(Seed::<32>::get_decoded(bytes)) },
+        "u8" => run!(gd::<u8, ()>(&(), bytes)),
+        "u16" => run!(gd::<u16, ()>(&(), bytes)),
+        "u32" => run!(gd::<u32, ()>(&(), bytes)),
+        "u64" => run!(gd::<u64, ()>(&(), bytes)),
+        "seed" => if d["n"] == 16 { run!(gd::<Seed::<16>, ()>(&(), bytes)) } else { run!(gd::<Seed::<32>, ()>(&(), bytes)) },
         "field" => match d["f"].as_str().unwrap() {
-            "FieldV17" => run!(FieldV17::get_decoded(bytes)),
-            "FieldV193" => run!(FieldV193::get_decoded(bytes)),
-            "FieldV12289" => run!(FieldV12289::get_decoded(bytes)),
-            "FieldV40961" => run!(FieldV40961::get_decoded(bytes)),
-            "FieldPrio2" => run!(FieldPrio2::get_decoded(bytes)),
-            "Field64" => run!(Field64::get_decoded(bytes)),
-            "Field128" => run!(Field128::get_decoded(bytes)),
-            "Field255" => run!(Field255::get_decoded(bytes)),
+            "FieldV17" => run!(gd::<FieldV17, ()>(&(), bytes)),
+            "FieldV193" => run!(gd::<FieldV193, ()>(&(), bytes)),
+            "FieldV12289" => run!(gd::<FieldV12289, ()>(&(), bytes)),
+            "FieldV40961" => run!(gd::<FieldV40961, ()>(&(), bytes)),
+            "FieldPrio2" => run!(gd::<FieldPrio2, ()>(&(), bytes)),
+            "Field64" => run!(gd::<Field64, ()>(&(), bytes)),
+            "Field128" => run!(gd::<Field128, ()>(&(), bytes)),
+            "Field255" => run!(gd::<Field255, ()>(&(), bytes)),
             f => panic!("field {f}"),
         },
         "items" => match d["size"].as_u64().unwrap() {
@@ -201,7 +236,7 @@ pub fn decode(d: &Value, bytes: &[u8]) -> Outcome {
             2 => items::<u16>(d["w"].as_u64().unwrap(), bytes),
             _ => items::<u32>(d["w"].as_u64().unwrap(), bytes),
         },
-        "pingpong_msg" => run!(PingPongMessage::get_decoded(bytes)),
+        "pingpong_msg" => run!(gd::<PingPongMessage, ()>(&(), bytes)),
         t if t.starts_with("prio3_") => match d["f"].as_str().unwrap() {
             "FieldV17" => prio3_field!(FieldV17, d, bytes),
             "FieldV40961" => prio3_field!(FieldV40961, d, bytes),
@@ -212,15 +247,15 @@ pub fn decode(d: &Value, bytes: &[u8]) -> Outcome {
         t if t.starts_with("poplar1_") => {
             let bits = d["bits"].as_u64().unwrap() as usize;
             match t {
-                "poplar1_pub" => { let v = Poplar1::<XofTurboShake128, 32>::new(bits); run!(Poplar1PublicShare::get_decoded_with_param(&v, bytes)) }
+                "poplar1_pub" => { let v = Poplar1::<XofTurboShake128, 32>::new(bits); run!(gd::<Poplar1PublicShare, _>(&v, bytes)) }
                 "poplar1_share" => if d["seed"] == 16 {
                     let v = Poplar1::<XofFixedKeyAes128, 16>::new(bits);
-                    run!(Poplar1InputShare::<16>::get_decoded_with_param(&(&v, 0), bytes))
+                    run!(gd::<Poplar1InputShare::<16>, _>(&(&v, 0), bytes))
                 } else {
                     let v = Poplar1::<XofTurboShake128, 32>::new(bits);
-                    run!(Poplar1InputShare::<32>::get_decoded_with_param(&(&v, 1), bytes))
+                    run!(gd::<Poplar1InputShare::<32>, _>(&(&v, 1), bytes))
                 },
-                "poplar1_state" => { let v = Poplar1::<XofTurboShake128, 32>::new(bits); let j = d["j"].as_u64().unwrap() as usize; run!(Poplar1VerifierState::get_decoded_with_param(&(&v, j), bytes)) }
+                "poplar1_state" => { let v = Poplar1::<XofTurboShake128, 32>::new(bits); let j = d["j"].as_u64().unwrap() as usize; run!(gd::<Poplar1VerifierState, _>(&(&v, j), bytes)) }
                 "poplar1_fieldvec" => {
                     let v = Poplar1::<XofTurboShake128, 32>::new(bits);
                     let leaf = d["leaf"].as_bool().unwrap();
@@ -228,18 +263,18 @@ pub fn decode(d: &Value, bytes: &[u8]) -> Outcome {
                     if d["ctx"] == "sketch" {
                         // round one: 3 elements; round two: 1 element
                         let st = poplar_state(leaf, if n == 3 { 1 } else { 2 }, 0, &v);
-                        run!(Poplar1FieldVec::get_decoded_with_param(&st, bytes))
+                        run!(gd::<Poplar1FieldVec, _>(&st, bytes))
                     } else {
                         let level = if leaf { bits - 1 } else { 1 };
                         let prefixes: Vec<IdpfInput> = (0..n).map(|i| IdpfInput::from_bools(&(0..=level).map(|b| (i >> (level - b)) & 1 == 1).collect::<Vec<_>>())).collect();
                         let ap = Poplar1AggregationParam::try_from_prefixes(prefixes).unwrap();
-                        run!(Poplar1FieldVec::get_decoded_with_param(&(&v, &ap), bytes))
+                        run!(gd::<Poplar1FieldVec, _>(&(&v, &ap), bytes))
                     }
                 }
                 "poplar1_msg" => {
                     let v = Poplar1::<XofTurboShake128, 32>::new(bits);
                     let st = poplar_state(d["leaf"].as_bool().unwrap(), d["round"].as_u64().unwrap(), 1, &v);
-                    run!(Poplar1VerifierMessage::get_decoded_with_param(&st, bytes))
+                    run!(gd::<Poplar1VerifierMessage, _>(&st, bytes))
                 }
                 t => panic!("type {t}"),
             }
@@ -249,14 +284,14 @@ pub fn decode(d: &Value, bytes: &[u8]) -> Outcome {
             let j = d["j"].as_u64().unwrap() as usize;
             let v = Prio2::new(n).unwrap();
             match t {
-                "prio2_share" => run!(Share::<FieldPrio2, 32>::get_decoded_with_param(&(&v, j), bytes)),
-                "prio2_state" => run!(Prio2VerifierState::get_decoded_with_param(&(&v, j), bytes)),
+                "prio2_share" => run!(gd::<Share::<FieldPrio2, 32>, _>(&(&v, j), bytes)),
+                "prio2_state" => run!(gd::<Prio2VerifierState, _>(&(&v, j), bytes)),
                 "prio2_vshare" => {
                     let st = Prio2VerifierState::get_decoded_with_param(&(&v, 1), &[0u8; 32]).unwrap();
-                    run!(Prio2VerifierShare::get_decoded_with_param(&st, bytes))
+                    run!(gd::<Prio2VerifierShare, _>(&st, bytes))
                 }
-                "prio2_out" => run!(OutputShare::<FieldPrio2>::get_decoded_with_param(&(&v, &()), bytes)),
-                "prio2_agg" => run!(AggregateShare::<FieldPrio2>::get_decoded_with_param(&(&v, &()), bytes)),
+                "prio2_out" => run!(gd::<OutputShare::<FieldPrio2>, _>(&(&v, &()), bytes)),
+                "prio2_agg" => run!(gd::<AggregateShare::<FieldPrio2>, _>(&(&v, &()), bytes)),
                 t => panic!("type {t}"),
             }
         }
@@ -276,9 +311,18 @@ fn dname(d: &Value) -> String {
 }
 
 /// Checks one (descriptor, bytes, expected verdict) against the real decoder.
-fn check(d: &Value, bytes: &[u8], expect_ok: bool, implied: u64, tl: &mut Tally) -> Outcome {
-    let o = decode(d, bytes);
+fn check(d: &Value, bytes: &[u8], expect_ok: bool, implied: u64, plen: i64, tl: &mut Tally) -> Outcome {
     let name = dname(d);
+    // the decoder on a cursor inside a larger buffer: must consume exactly the encoding at the front (length from the model), or fail
+    let (f, consumed) = decode_framed(d, bytes);
+    if let Some(p) = &f.panic {
+        tl.mismatch(&format!("codec/{name}/framed_panic"), json!({"d": d, "bytes": bytes, "panic": p}));
+    } else if f.ok != (plen >= 0) {
+        tl.mismatch(&format!("codec/{name}/framed_verdict"), json!({"d": d, "bytes": bytes, "expected_prefix_len": plen, "got_ok": f.ok}));
+    } else if f.ok && (consumed as i64 != plen || f.reenc.as_deref() != Some(&bytes[..consumed.min(bytes.len())])) {
+        tl.mismatch(&format!("codec/{name}/framed_consumed"), json!({"d": d, "bytes": bytes, "expected_prefix_len": plen, "consumed": consumed, "reencoded": f.reenc}));
+    }
+    let o = decode(d, bytes);
     let ctx = || json!({"d": d, "bytes": bytes});
     if let Some(p) = &o.panic {
         tl.mismatch(&format!("codec/{name}/panic"), json!({"d": d, "bytes": bytes, "panic": p}));
@@ -312,7 +356,7 @@ pub fn replay(lines: impl Iterator<Item = String>) {
         let v: Value = serde_json::from_str(&line).expect("line");
         let bytes = bytes_of(&v["bytes"]);
         tl.evaluations += 1;
-        check(&v["d"], &bytes, v["ok"].as_bool().unwrap(), v["implied"].as_u64().unwrap_or(0), &mut tl);
+        check(&v["d"], &bytes, v["ok"].as_bool().unwrap(), v["implied"].as_u64().unwrap_or(0), v["plen"].as_i64().unwrap_or(if v["ok"].as_bool().unwrap() { bytes.len() as i64 } else { -1 }), &mut tl);
         if tl.evaluations % 500 == 1 {
             tl.sample(json!({"d": v["d"], "len": bytes.len(), "ok": v["ok"]}));
         }
@@ -361,6 +405,14 @@ pub fn fuzz(args: &[String], lines: impl Iterator<Item = String>) {
             out.push('\n');
             if let Some(p) = &o.panic {
                 tl.mismatch(&format!("codec/{}/panic", dname(&v["d"])), json!({"d": v["d"], "bytes": b, "panic": p}));
+            }
+            // the same string through the cursor form of the decoder (embedded in a larger buffer)
+            let (f, consumed) = decode_framed(&v["d"], &b);
+            let fcanon = f.reenc.as_deref() == Some(&b[..consumed.min(b.len())]);
+            out.push_str(&json!({"d": v["d"], "bytes": b, "framed": true, "ok": f.ok, "panic": f.panic.is_some(), "consumed": consumed, "canonical": fcanon}).to_string());
+            out.push('\n');
+            if let Some(p) = &f.panic {
+                tl.mismatch(&format!("codec/{}/framed_panic", dname(&v["d"])), json!({"d": v["d"], "bytes": b, "panic": p}));
             }
         }
     }
